@@ -23,6 +23,18 @@ CLAIMED = {
             'proved on the complement of their regions and their witnesses replayed on every run.',
             'PDUs of the exact length their function code defines (other lengths: C12). Datastore-failure -> 04 is proved in the front-end units (C09/C12). '
             'A1-A10; z3/cvc5; pyvc translator.', 'contract-based deductive verification (pyvc VC generation from /repo AST + z3/cvc5)', 'DESIGN.md section 4 C05'),
+    'C01': ('proof', 'For every message class of the S-PDU table (units/codecs.py; 34 data classes + 34 diagnostic classes + exception response): '
+            'encode() of an instance holding any valid field values is byte for byte the PDU of MODBUS AP v1.1b3, and the server/client decoder turns any '
+            'spec-conformant PDU into an instance of the right class carrying exactly the wire values (decoder tables included). Loops are cut at '
+            'invariants; bit packing is proved against an LSB-first spec via a separately proved lemma. Four known findings are proved on the complement of their regions.',
+            'File-record (FC 20/21) and device-identification response codecs are not yet under contract at this commit (planned bounded stand-in). '
+            'S-PDU table is a transcription of the specification; A1-A10; struct/compat library models; z3/cvc5.',
+            'contract-based deductive verification (pyvc VC generation from /repo AST + z3/cvc5)', 'DESIGN.md section 4 C01'),
+    'C02': ('proof', 'Per class: Decoder.decode(fc + K(v).encode()) has view v (real encode composed with real decode, through the real decoder tables); '
+            'encode() changes no attribute (hence encode twice / encode after decode give identical bytes); decode into an instance holding an earlier result '
+            'equals decode into a fresh instance. For all field values and all list lengths. Four known findings proved on the complement of their regions.',
+            'Same scope restriction as C01 for FC 20/21 and the 43/14 response. A1-A10; z3/cvc5.',
+            'contract-based deductive verification (pyvc VC generation from /repo AST + z3/cvc5)', 'DESIGN.md section 4 C02'),
 }
 NOT_YET = 'check not built yet at this commit (planned: contract-based, see DESIGN.md section 4)'
 ALL = ['C%02d' % i for i in range(1, 21)]
